@@ -53,6 +53,7 @@ def _cov(a, b):
     return sum((u - ma) * (v - mb) for u, v in zip(a, b)) / (n - 1)
 
 
+@H.under_contrary_config
 def _run_case(case):
     import tea_tasting as tt
     cfg = case["cfg"]
